@@ -16,7 +16,7 @@ from collections import Counter
 from . import pin
 
 NPROC = int(os.environ.get('VERIF_NPROC', '0')) or min(16, os.cpu_count() or 1)
-MAX_REPORT = 8          # distinct VIOLATION lines printed per run
+MAX_REPORT = int(os.environ.get('VERIF_MAX_REPORT', '8'))          # distinct VIOLATION lines printed per run
 
 
 def V(clause, detail, **key):
